@@ -63,10 +63,13 @@ def t1(repo, res, canon, pc, logic):
         effs = path_effects(canon, p.events)
         pops = [ef for ef in effs if ef.loc == stored and ef.kind == 'pop']
         apps = [ef for ef in effs if ef.loc == sched and ef.kind == 'append']
-        rets = [e.node for e in p.events if e.kind == 'stmt' and isinstance(e.node, ast.Return) and e.node.value is not None]
+        rets = [e.node for e in p.events if e.kind == 'stmt' and isinstance(e.node, ast.Return) and e.node.value is not None
+                and not (isinstance(e.node.value, ast.Constant) and e.node.value.value is None)]
         if rets:
             n += 1
-            if len(pops) != 1 or len(apps) != 1 or not apps[0].arg.startswith(stored):
+            if len(pops) != 1 or len(apps) != 1 or not (
+                    apps[0].arg.startswith(stored) or
+                    (apps[0].value is not None and pc.p(apps[0].value, apps[0].ev.frame).startswith(stored + '.pop('))):
                 ok, why = False, ('handing out an observation pops %d and appends %d: it stays stored (handed out '
                                   'again next step) or is lost' % (len(pops), len(apps)))
         elif pops or apps:
